@@ -21,6 +21,86 @@ def _final_class(idx: Index, mi, name: str) -> bool:
     return k is not None and any(d.endswith("irdl_attr_definition") for d in k.decorator_names())
 
 
+
+def _widening_typestate(fn: ast.AST, loop: ast.For) -> str | None:
+    """Merge loop over the parameter pairs (x, y) of two constraints.  A *store* into the new parameter list inside
+    the loop is either the equal case (value is x or y, under the fact x == y, or the list was pre-filled) or a
+    *widening*.  Every widening must (1) be guarded by "no widening happened yet" on a marker variable, (2) set that
+    marker on the path to the next iteration, and (3) a second differing position must reach `return None`.
+    Returns a description of the first broken clause, or None."""
+    # loop variables standing for the two sides
+    tgt = loop.target
+    pair = None
+    for t in ast.walk(tgt):
+        if isinstance(t, ast.Tuple) and len(t.elts) == 2 and all(isinstance(e, ast.Name) for e in t.elts):
+            pair = (t.elts[0].id, t.elts[1].id)
+    if pair is None:
+        raise AnalysisError("relax_constraint: the pair of loop variables is not recognised")
+    x, y = pair
+    eq_true = {f"{x} == {y}", f"{y} == {x}"}
+    ne_true = {f"{x} != {y}", f"{y} != {x}"}
+
+    def differs(facts) -> bool:
+        return any((unparse(t) in eq_true and not pol) or (unparse(t) in ne_true and pol) for t, pol in facts)
+
+    def equal(facts) -> bool:
+        return any((unparse(t) in eq_true and pol) or (unparse(t) in ne_true and not pol) for t, pol in facts)
+
+    # stores into a list inside the loop: <l>.append(v) / <l>[i] = v
+    stores = []
+    for n in walk_local(loop):
+        if isinstance(n, ast.Call) and call_attr(n) == "append" and len(n.args) == 1:
+            stores.append((n, n.args[0]))
+        elif isinstance(n, ast.Assign) and isinstance(n.targets[0], ast.Subscript):
+            stores.append((n, n.value))
+    if not stores:
+        raise AnalysisError("relax_constraint: no store into the merged parameter list found in the loop")
+    # marker candidates: local names assigned inside the loop
+    assigned = {t.id for n in walk_local(loop) if isinstance(n, ast.Assign) for t in n.targets if isinstance(t, ast.Name)}
+    widenings = []
+    for node, val in stores:
+        facts = guard_facts(fn, node)
+        vt = unparse(val)
+        if vt in (x, y) and (equal(facts) or not differs(facts)):
+            continue  # equal case keeps one side
+        widenings.append((node, val, facts))
+    if not widenings:
+        return "no widening of a differing position found (the alternatives would be dropped)"
+    for node, val, facts in widenings:
+        vt = unparse(val)
+        if vt not in (f"{x} | {y}", f"{y} | {x}"):
+            # any other value stored for a differing position (AnyAttr(), one side only ...) is a widening too
+            pass
+        # (1) guarded by an unset marker
+        marker = None
+        for t, pol in facts:
+            tt = unparse(t)
+            for m in assigned:
+                if (tt == m and not pol) or (tt == f"not {m}" and pol) or (tt == f"{m} is None" and pol) or (tt == f"{m} is not None" and not pol):
+                    marker = m
+        if marker is None:
+            return f"`{unparse(node)[:60]}` widens a position without testing that no position was widened before"
+        # (2) the marker is set in the same statement list as the widening
+        blk = None
+        for par in walk_local(loop):
+            for fld in ("body", "orelse"):
+                b = getattr(par, fld, None)
+                if isinstance(b, list) and any((isinstance(st, ast.Expr) and st.value is node) or st is node for st in b):
+                    blk = b
+        if blk is None or not any(isinstance(st, ast.Assign) and any(isinstance(t, ast.Name) and t.id == marker for t in st.targets) for st in blk):
+            return f"`{marker}` is not set where the position is widened"
+        # (3) a differing position with the marker set gives up
+        gives_up = False
+        for rt in [n for n in walk_local(loop) if isinstance(n, ast.Return) and (n.value is None or (isinstance(n.value, ast.Constant) and n.value.value is None))]:
+            fs = guard_facts(fn, rt)
+            set_ = any((unparse(t) == marker and pol) or (unparse(t) == f"{marker} is not None" and pol) or (unparse(t) == f"{marker} is None" and not pol) for t, pol in fs)
+            if set_ and not equal(fs):
+                gives_up = True
+        if not gives_up:
+            return "no `return None` for a second differing position"
+    return None
+
+
 def check_get_bases(idx: Index, rep: Report) -> None:
     r = rep.rule("C09.R1", "every get_bases() returns only classes that cannot have instances of another class (type(instance), runtime-final, @irdl_attr_definition) or delegates to inner constraints", floor=12)
     n = 0
@@ -139,10 +219,9 @@ def check_relax(idx: Index, rep: Report) -> None:
             if len(loops) != 1 or "strict=True" not in unparse(loops[0].iter):
                 problems.append(("param-loop", "parameters must be zipped with strict=True"))
             else:
-                body = re.sub(r"\s+", " ", unparse(loops[0]))
-                want = "if x == y: new_params.append(x) elif seen_difference: return else: seen_difference = True new_params.append(x | y)"
-                if want not in body:
-                    problems.append(("second-widening", "the merge loop must give up (return None) when a second parameter position differs: widening two positions accepts combinations neither alternative accepts"))
+                msg = _widening_typestate(f.node, loops[0])
+                if msg is not None:
+                    problems.append(("second-widening", f"the merge loop must give up (return None) when a second parameter position differs: widening two positions accepts combinations neither alternative accepts ({msg})"))
             t = re.sub(r"\s+", " ", unparse(f.node))
             if "if self.base_attr != other.base_attr: return" not in t:
                 problems.append(("base-mismatch", "parametrized constraints of different base attributes must not be merged"))
